@@ -38,7 +38,7 @@ def engine():
 
 
 def is_sym(x):
-    return isinstance(x, (Sym, SymBool))
+    return isinstance(x, (Sym, SymBool)) or getattr(x, "_is_bv", False)
 
 
 def frac(x):
@@ -60,6 +60,8 @@ def frac(x):
 def _term(x):
     """z3 arithmetic term of anything numeric"""
     if isinstance(x, Sym):
+        return x.t
+    if getattr(x, "_is_bv", False):
         return x.t
     if isinstance(x, SymBool):
         return z3.If(x.t, z3.IntVal(1), z3.IntVal(0))
@@ -131,6 +133,9 @@ class Sym:
     __slots__ = ("t",)
 
     def __init__(self, t):
+        # fold constant sub-terms (pinned runs operate on numerals only)
+        if t.num_args() and all(_numeral(c) is not None for c in t.children()):
+            t = z3.simplify(t)
         self.t = t
 
     # -- arithmetic
@@ -140,13 +145,23 @@ class Sym:
         except NotEncodable:
             return None
 
+    @staticmethod
+    def _lift(o):
+        """python sequences met by a symbolic scalar behave like numpy arrays (as they do for numpy scalars)"""
+        if isinstance(o, (list, tuple)):
+            from . import nparr
+
+            return nparr.wrap(_np.array(o, dtype=object))
+        return None
+
     def __add__(s, o):
         c = _const_value(o)
         if c is not None and c == 0 and not isinstance(o, (float, _np.floating)):
             return s
         ot = s._coerce(o)
         if ot is None:
-            return NotImplemented
+            lo = s._lift(o)
+            return NotImplemented if lo is None else lo + s
         return Sym(s.t + ot)
 
     def __radd__(s, o):
@@ -155,7 +170,8 @@ class Sym:
             return s if not (isinstance(o, (float, _np.floating)) and not _is_real(s.t)) else Sym(_to_real(s.t))
         ot = s._coerce(o)
         if ot is None:
-            return NotImplemented
+            lo = s._lift(o)
+            return NotImplemented if lo is None else lo + s
         return Sym(ot + s.t)
 
     def __sub__(s, o):
@@ -164,13 +180,15 @@ class Sym:
             return s
         ot = s._coerce(o)
         if ot is None:
-            return NotImplemented
+            lo = s._lift(o)
+            return NotImplemented if lo is None else -(lo - s)
         return Sym(s.t - ot)
 
     def __rsub__(s, o):
         ot = s._coerce(o)
         if ot is None:
-            return NotImplemented
+            lo = s._lift(o)
+            return NotImplemented if lo is None else lo - s
         c = _const_value(o)
         if c is not None and c == 0:
             return Sym(-s.t)
@@ -187,7 +205,8 @@ class Sym:
                 return Sym(_to_real(s.t))
         ot = s._coerce(o)
         if ot is None:
-            return NotImplemented
+            lo = s._lift(o)
+            return NotImplemented if lo is None else lo * s
         return Sym(s.t * ot)
 
     def __rmul__(s, o):
@@ -199,7 +218,8 @@ class Sym:
                 return s if not isinstance(o, (float, _np.floating)) else Sym(_to_real(s.t))
         ot = s._coerce(o)
         if ot is None:
-            return NotImplemented
+            lo = s._lift(o)
+            return NotImplemented if lo is None else lo * s
         return Sym(ot * s.t)
 
     def __truediv__(s, o):
@@ -210,14 +230,16 @@ class Sym:
             return Sym(_to_real(s.t) * _term(1 / frac(c)))
         ot = s._coerce(o)
         if ot is None:
-            return NotImplemented
+            lo = s._lift(o)
+            return NotImplemented if lo is None else (1 / lo) * s
         ENGINE.note_denominator(ot)
         return Sym(_to_real(s.t) / _to_real(ot))
 
     def __rtruediv__(s, o):
         ot = s._coerce(o)
         if ot is None:
-            return NotImplemented
+            lo = s._lift(o)
+            return NotImplemented if lo is None else lo / s
         ENGINE.note_denominator(s.t)
         c = _const_value(o)
         if c is not None and c == 0:
@@ -321,9 +343,15 @@ class Sym:
         return s.t.hash()
 
     def __float__(s):
+        v = _numeral(s.t)
+        if v is not None:
+            return float(v)
         raise NotEncodable("float() of a symbolic number")
 
     def __int__(s):
+        v = _numeral(s.t)
+        if v is not None:
+            return int(v)
         if _is_real(s.t):
             raise NotEncodable("int() of a symbolic real")
         return ENGINE.concretize(s.t)
@@ -731,3 +759,146 @@ class PathResult:
 
     def signature(self):
         return "".join(("T" if d else "F") if v is None else ("[%s%d]" % ("=" if d else "!", v)) for d, f, v in self.prefix if not f)
+
+
+# ---------------------------------------------------------------------------------------------
+# machine words: 64-bit two's complement values with numpy int64 / uint64 semantics (wrap-around)
+
+
+class SymBV:
+    """symbolic 64-bit machine integer; `signed` tells how comparisons / conversions read the bits"""
+
+    __slots__ = ("t", "signed")
+    _is_bv = True
+    W = 64
+
+    def __init__(self, t, signed=True):
+        self.t = t
+        self.signed = signed
+
+    def _o(self, o):
+        if isinstance(o, SymBV):
+            return o.t
+        if isinstance(o, (bool, _np.bool_)):
+            return z3.BitVecVal(int(o), 64)
+        if isinstance(o, (int, _np.integer)):
+            return z3.BitVecVal(int(o) % (1 << 64), 64)
+        raise NotEncodable("BV operand %r" % type(o))
+
+    def _w(self, t, o=None):
+        signed = self.signed and (o.signed if isinstance(o, SymBV) else True)
+        return SymBV(z3.simplify(t) if False else t, signed)
+
+    def __add__(s, o):
+        return s._w(s.t + s._o(o), o)
+
+    __radd__ = __add__
+
+    def __sub__(s, o):
+        return s._w(s.t - s._o(o), o)
+
+    def __rsub__(s, o):
+        return s._w(s._o(o) - s.t, o)
+
+    def __mul__(s, o):
+        return s._w(s.t * s._o(o), o)
+
+    __rmul__ = __mul__
+
+    def __neg__(s):
+        return SymBV(-s.t, s.signed)
+
+    def __lshift__(s, o):
+        return SymBV(s.t << s._o(o), s.signed)
+
+    def __rshift__(s, o):
+        return SymBV((s.t >> s._o(o)) if s.signed else z3.LShR(s.t, s._o(o)), s.signed)
+
+    def __xor__(s, o):
+        return s._w(s.t ^ s._o(o), o)
+
+    __rxor__ = __xor__
+
+    def __or__(s, o):
+        return s._w(s.t | s._o(o), o)
+
+    __ror__ = __or__
+
+    def __and__(s, o):
+        return s._w(s.t & s._o(o), o)
+
+    __rand__ = __and__
+
+    def __invert__(s):
+        return SymBV(~s.t, s.signed)
+
+    def _cmp(s, o, sf, uf):
+        ot = s._o(o)
+        signed = s.signed if not isinstance(o, SymBV) else (s.signed and o.signed)
+        if isinstance(o, (int, _np.integer)) and not isinstance(o, (bool, _np.bool_)):
+            # comparison with a python int is mathematical: handle values outside the representable range
+            lo, hi = (-(1 << 63), (1 << 63) - 1) if signed else (0, (1 << 64) - 1)
+            if int(o) < lo or int(o) > hi:
+                return ("below" if int(o) < lo else "above")
+        return SymBool(sf(s.t, ot) if signed else uf(s.t, ot))
+
+    def __lt__(s, o):
+        r = s._cmp(o, lambda a, b: a < b, z3.ULT)
+        return (r == "above") if isinstance(r, str) else r
+
+    def __le__(s, o):
+        r = s._cmp(o, lambda a, b: a <= b, z3.ULE)
+        return (r == "above") if isinstance(r, str) else r
+
+    def __gt__(s, o):
+        r = s._cmp(o, lambda a, b: a > b, z3.UGT)
+        return (r == "below") if isinstance(r, str) else r
+
+    def __ge__(s, o):
+        r = s._cmp(o, lambda a, b: a >= b, z3.UGE)
+        return (r == "below") if isinstance(r, str) else r
+
+    def __eq__(s, o):
+        try:
+            return SymBool(s.t == s._o(o))
+        except NotEncodable:
+            return NotImplemented
+
+    def __ne__(s, o):
+        try:
+            return SymBool(s.t != s._o(o))
+        except NotEncodable:
+            return NotImplemented
+
+    def __hash__(s):
+        return s.t.hash()
+
+    def __abs__(s):
+        return SymBV(z3.If(s.t >= 0, s.t, -s.t), s.signed) if s.signed else s
+
+    def __bool__(s):
+        return ENGINE.branch(s.t != 0)
+
+    def __index__(s):
+        return ENGINE.concretize_bv(s.t, s.signed)
+
+    __int__ = __index__
+
+    def astype(s, dt):
+        dt = _np.dtype(dt)
+        if dt.itemsize != 8 or dt.kind not in "iu":
+            raise NotEncodable("BV astype %s" % dt)
+        return SymBV(s.t, dt.kind == "i")
+
+    def __repr__(s):
+        return "SymBV(%s,%s)" % (str(s.t).replace("\n", " ")[:60], "i" if s.signed else "u")
+
+
+def _concretize_bv(self, t, signed):
+    t = z3.simplify(t)
+    if z3.is_bv_value(t):
+        return t.as_signed_long() if signed else t.as_long()
+    raise NotEncodable("symbolic machine word used as an index")
+
+
+Engine.concretize_bv = _concretize_bv
